@@ -4,6 +4,7 @@ import (
 	"fmt"
 	"os"
 	"go/token"
+	"go/types"
 	"strings"
 
 	"golang.org/x/tools/go/ssa"
@@ -452,6 +453,49 @@ algebraDone:
 			c.Add("MERGE", fmt.Sprintf("dedupe#%d", nApp), core.OK, w.At(wr), "", props...)
 		} else {
 			c.Add("MERGE", fmt.Sprintf("dedupe#%d", nApp), core.Violation, w.At(wr), "a merged result can be appended without its node id having been looked up in the de-duplication map: a point found by several sub-queries appears more than once", props...)
+		}
+		// the appended result is registered in the de-duplication map before the next result is
+		// looked at: from the append no further append and no return is reached without an
+		// update of a map from node ids to positions
+		{
+			regs := map[*ssa.BasicBlock]bool{}
+			for _, mb := range f.Blocks {
+				for _, mi := range mb.Instrs {
+					if mu, ok := mi.(*ssa.MapUpdate); ok {
+						if mt, ok := mu.Map.Type().Underlying().(*types.Map); ok {
+							if kb, ok := mt.Key().Underlying().(*types.Basic); ok && kb.Kind() == types.Uint64 && (ssax.Prov(mu.Key)["field:NodeId"] || deepHas(w, mu.Key, "field:NodeId")) {
+								regs[mb] = true
+							}
+						}
+					}
+				}
+			}
+			A := wr.Block()
+			skipped := false
+			if !regs[A] {
+				seenB := map[*ssa.BasicBlock]bool{}
+				stack := append([]*ssa.BasicBlock{}, A.Succs...)
+				for len(stack) > 0 && !skipped {
+					x := stack[len(stack)-1]
+					stack = stack[:len(stack)-1]
+					if seenB[x] || regs[x] {
+						continue
+					}
+					seenB[x] = true
+					if x == A {
+						skipped = true
+					}
+					if _, isRet := x.Instrs[len(x.Instrs)-1].(*ssa.Return); isRet {
+						skipped = true
+					}
+					stack = append(stack, x.Succs...)
+				}
+			}
+			if skipped {
+				c.Add("MERGE", fmt.Sprintf("dedupe-registers#%d", nApp), core.Violation, w.At(wr), "a merged result is appended and the next one can be looked at without the appended one having been entered in the de-duplication map: a point that a later sub-query finds again is appended a second time, each entry with part of the score", props...)
+			} else {
+				c.Add("MERGE", fmt.Sprintf("dedupe-registers#%d", nApp), core.OK, w.At(wr), "", props...)
+			}
 		}
 		gate := append(append([]ssax.Edge{}, disjTrue...), contains...)
 		if !reachableWithoutEdges(f, gate, wr.Block()) {
